@@ -8,14 +8,15 @@ XYZ = 'xyz'
 
 
 def sm_masks(tier, seed):
-    """scale/misalignment enable masks (9 bits). quick: a pairwise-covering handful; thorough: 64"""
+    """scale/misalignment enable masks (9 bits). quick: a structured handful; thorough: ALL 512 (with the
+    bias / walk / noise forks of every path that is every admissible enable mask of the property)"""
     import random
     # structured masks first: none, all, diagonal, checkerboard, a single entry in output row x (index
     # 0 is falsy!), one full row each, one column - then random ones
     base = [0b000000000, 0b111111111, 0b100010001, 0b010101010, 0b000000001, 0b000000111, 0b000111000, 0b111000000,
             0b001001001, 0b000000100, 0b001100110, 0b110001100]
     rng = random.Random(seed)
-    n = 10 if tier == 'quick' else 64
+    n = 10 if tier == 'quick' else 512
     masks = list(base)
     while len(masks) < n:
         m = rng.randrange(512)
@@ -559,3 +560,11 @@ def replay(spec):
     if not np.allclose(corr.values, clean.values[1:], atol=1e-12):
         fails.append('correct_increments does not undo the noise-free simulated error (max diff %.3g)' % np.abs(corr.values - clean.values[1:]).max())
     return {'violated': bool(fails), 'detail': fails}
+
+
+RIM = {'lat': -84.6, 'lon': 150.0, 'alt': 15000.0, 'VN': 250.0, 'VE': -200.0, 'VD': 5.0, 'roll': 120.0, 'pitch': -60.0, 'heading': -170.0}
+
+
+def FALLBACK(tier):
+    """numeric oracle specs put to the compiled code when the symbolic run is inconclusive (main.py)"""
+    return [{'check': 'noise', 'point': {}}] + [{'check': 'model', 'point': {}, 'params': {'bias': list(b), 'walk': list(w), 'noise': list(n_), 'sm': sm}} for (b, w, n_, sm) in [((True, True, True), (True, False, True), (True, True, True), 0b100010001), ((True, False, True), (False, False, True), (False, True, False), 0b000000110), ((False, False, False), (False, False, False), (False, False, False), 0), ((True, True, False), (False, False, True), (True, False, False), 0)]]
